@@ -188,11 +188,20 @@ def run(ctx):
               "accepted values: dump re-read as str and as list of lines, with whitespace-separates-paragraphs False and (when no "
               "continuation line is blank) with the default; rejected values: ValueError and unchanged paragraph; non-trivial = "
               "distinct accepted multi-line values" % (N, "exhaustive" if ctx.tier != "quick" else "length 5 sampled"),
-              "length <= %d" % N, )
+              "length <= %d, plus line-level family: first line {v, empty} x 1-3 continuation lines over 13 tricky line texts (armor lines, "
+              "field-like, comment-like, '.', blank) x {space, TAB} indentation (pairs exhaustive, triples sampled)" % N, )
     vals = ["".join(v) for n in range(0, N + 1) for v in itertools.product(ALPHA, repeat=n)]
     if ctx.tier == "quick":
         vals = [v for v in vals if len(v) <= 4] + rng.sample([v for v in vals if len(v) == 5], 6000)
     vals += ["1.0\rInjected: yes", "first\r\rsecond", "first\n\r\n second", "s\n first\n \n second", "s\n\t", "x\n a: b\n #c"]
+    # line-level family: continuation lines that look like something else to one of the readers (armor lines, fields,
+    # comments, separators), all pairs exhaustively, triples sampled
+    TOK = ["-----BEGIN PGP SIGNED MESSAGE-----", "-----BEGIN PGP SIGNATURE-----", "-----END PGP SIGNATURE-----",
+           "-----BEGIN PGP SIGNATURE-----  ", "Injected: yes", "Injected:", "# comment", ".", "", "\t", " x ", "-----", "Hash: SHA256"]
+    conts = [ind + tk for ind in (" ", "\t") for tk in TOK]
+    fam = [[c] for c in conts] + [[c1, c2] for c1 in conts for c2 in conts]
+    fam += [[rng.choice(conts) for _ in range(3)] for _ in range(1500 if ctx.tier == "quick" else 17576)]
+    vals += [first + "".join("\n" + c for c in cs) for cs in fam for first in ("v", "")]
     for v in vals:
         d = Deb822()
         d["A"] = "1"
